@@ -120,20 +120,22 @@ Print Assumptions Props.C04.C04_back_typescript_field.
 Goal forall (cfg : ts_config) g ue t vsh s v s',
     (is_optional t = true -> tmap_get (ts_type_mappings cfg) (rtype_display t) = None) ->
     ts_variant_of cfg g ue (VTuple t vsh) s = Ok (v, s') ->
-    exists y, ts_texp cfg g (Proofs.C04.c04_strip t) s = Ok (y, s') /\ v = TVTuple (vcomments vsh) (renamed (vid vsh)) y (is_optional t) /\
-      forall decl, known_C04 TypeScript (Proofs.C04_Back.c04_expect_of C04Payload t false (ts_show y)) = None ->
+    exists y, ts_texp cfg g (Proofs.C04.c04_strip t) s = Ok (y, s') /\
+      v = TVTuple (vcomments vsh) (renamed (vid vsh)) y (is_optional t) (is_double_optional t) /\
+      forall docs decl gs tag content,
+        ts_c04_rows (TSUnion docs decl gs tag content [v]) =
+          [c04_mk decl (renamed (vid vsh)) C04Payload (is_optional t) (is_optional t) (is_double_optional t) (ts_show y) (ts_show y)] /\
         good_C04 TypeScript (Proofs.C04_Back.c04_expect_of C04Payload t false (ts_show y))
-                 (c04r_seen (c04_mk decl (renamed (vid vsh)) C04Payload (is_optional t) (is_optional t) false (ts_show y) (ts_show y))) = true.
+                 (c04r_seen (c04_mk decl (renamed (vid vsh)) C04Payload (is_optional t) (is_optional t) (is_double_optional t) (ts_show y) (ts_show y))) = true.
 Proof. exact Props.C04.C04_back_typescript_payload. Qed.
 Print Assumptions Props.C04.C04_back_typescript_payload.
 Goal forall (cfg : ts_config) uc a s d s',
     (is_optional (atype a) = true -> tmap_get (ts_type_mappings cfg) (rtype_display (atype a)) = None) ->
     ts_decl_of uc cfg (ItAlias a) s = Ok (d, s') ->
     exists y, ts_texp cfg (agenerics a) (Proofs.C04.c04_strip (atype a)) s = Ok (y, s') /\
-      ts_c04_rows d = [c04_mk (renamed (aid a)) [] C04Alias (is_optional (atype a)) (is_optional (atype a)) false (ts_show y) (ts_show y)] /\
-      (known_C04 TypeScript (Proofs.C04_Back.c04_expect_of C04Alias (atype a) false (ts_show y)) = None ->
-       good_C04 TypeScript (Proofs.C04_Back.c04_expect_of C04Alias (atype a) false (ts_show y))
-                (c04r_seen (c04_mk (renamed (aid a)) [] C04Alias (is_optional (atype a)) (is_optional (atype a)) false (ts_show y) (ts_show y))) = true).
+      ts_c04_rows d = [c04_mk (renamed (aid a)) [] C04Alias (is_optional (atype a)) (is_optional (atype a)) (is_double_optional (atype a)) (ts_show y) (ts_show y)] /\
+      good_C04 TypeScript (Proofs.C04_Back.c04_expect_of C04Alias (atype a) false (ts_show y))
+               (c04r_seen (c04_mk (renamed (aid a)) [] C04Alias (is_optional (atype a)) (is_optional (atype a)) (is_double_optional (atype a)) (ts_show y) (ts_show y))) = true.
 Proof. exact Props.C04.C04_back_typescript_alias. Qed.
 Print Assumptions Props.C04.C04_back_typescript_alias.
 Goal forall m1 m2 : ts_member,
@@ -142,21 +144,38 @@ Goal forall m1 m2 : ts_member,
     ts_render_member m1 = ts_render_member m2 -> tm_null_union m1 = tm_null_union m2.
 Proof. exact Props.C04.C04_typescript_double_distinguishable. Qed.
 Print Assumptions Props.C04.C04_typescript_double_distinguishable.
-Goal exists v st, ts_variant_of Proofs.C04_Matrix.c04w_ts_cfg [] false
-                 (VTuple Proofs.C04_Matrix.c04w_double {| vid := Proofs.C04_Matrix.c04m_id (lit "C"); vcomments := [] |}) [] = Ok (v, st) /\
-    known_C04 TypeScript (Proofs.C04_Back.c04_expect_of C04Payload Proofs.C04_Matrix.c04w_double false (lit "string")) = Some "C04-ts-double-nonfield"%string /\
+Goal forall (tag content : str) docs wire ty opt (n1 n2 : bool),
+    ts_render_variant tag content (TVTuple docs wire ty opt n1) = ts_render_variant tag content (TVTuple docs wire ty opt n2) -> n1 = n2.
+Proof. exact Props.C04.C04_typescript_double_distinguishable_payload. Qed.
+Print Assumptions Props.C04.C04_typescript_double_distinguishable_payload.
+Goal forall docs name gs ty undef (n1 n2 : bool),
+    ts_render_decl (TSAlias docs name gs ty undef n1) = ts_render_decl (TSAlias docs name gs ty undef n2) -> n1 = n2.
+Proof. exact Props.C04.C04_typescript_double_distinguishable_alias. Qed.
+Print Assumptions Props.C04.C04_typescript_double_distinguishable_alias.
+Goal exists v st v1 st1,
+    ts_variant_of Proofs.C04_Matrix.c04w_ts_cfg [] false
+      (VTuple Proofs.C04_Matrix.c04w_double {| vid := Proofs.C04_Matrix.c04m_id (lit "C"); vcomments := [] |}) [] = Ok (v, st) /\
+    ts_variant_of Proofs.C04_Matrix.c04w_ts_cfg [] false
+      (VTuple (ROption (RPrim PString)) {| vid := Proofs.C04_Matrix.c04m_id (lit "C"); vcomments := [] |}) [] = Ok (v1, st1) /\
+    ts_render_variant (lit "t") (lit "c") v = nl ++ [ch_tab] ++ lit "| { t: ""C"", c?: string | null }" /\
+    ts_render_variant (lit "t") (lit "c") v1 = nl ++ [ch_tab] ++ lit "| { t: ""C"", c?: string }" /\
+    known_C04 TypeScript (Proofs.C04_Back.c04_expect_of C04Payload Proofs.C04_Matrix.c04w_double false (lit "string")) = None /\
     exists r, ts_c04_rows (TSUnion [] (lit "E") [] (lit "t") (lit "c") [v]) = [r] /\
-      good_C04 TypeScript (Proofs.C04_Back.c04_expect_of C04Payload Proofs.C04_Matrix.c04w_double false (lit "string")) (c04r_seen r) = false.
-Proof. exact Props.C04.C04_ts_double_payload_refuted. Qed.
-Print Assumptions Props.C04.C04_ts_double_payload_refuted.
-Goal exists d st r, ts_decl_of uc_exec Proofs.C04_Matrix.c04w_ts_cfg
-                   (ItAlias {| aid := Proofs.C04_Matrix.c04m_id (lit "A"); agenerics := []; atype := Proofs.C04_Matrix.c04w_double;
-                               acomments := []; adecs := []; aredacted := false |}) [] = Ok (d, st) /\
+      c04s_null_union (c04r_seen r) = true /\
+      good_C04 TypeScript (Proofs.C04_Back.c04_expect_of C04Payload Proofs.C04_Matrix.c04w_double false (lit "string")) (c04r_seen r) = true.
+Proof. exact Props.C04.C04_ts_double_payload_fixed. Qed.
+Print Assumptions Props.C04.C04_ts_double_payload_fixed.
+Goal exists d st d1 st1 r,
+    ts_decl_of uc_exec Proofs.C04_Matrix.c04w_ts_cfg (Proofs.C04_Matrix.c04w_alias Proofs.C04_Matrix.c04w_double) [] = Ok (d, st) /\
+    ts_decl_of uc_exec Proofs.C04_Matrix.c04w_ts_cfg (Proofs.C04_Matrix.c04w_alias (ROption (RPrim PString))) [] = Ok (d1, st1) /\
+    ts_render_decl d = lit "export type A = string | null | undefined;" ++ nl ++ nl /\
+    ts_render_decl d1 = lit "export type A = string | undefined;" ++ nl ++ nl /\
     ts_c04_rows d = [r] /\
-    known_C04 TypeScript (Proofs.C04_Back.c04_expect_of C04Alias Proofs.C04_Matrix.c04w_double false (lit "string")) = Some "C04-ts-double-nonfield"%string /\
-    good_C04 TypeScript (Proofs.C04_Back.c04_expect_of C04Alias Proofs.C04_Matrix.c04w_double false (lit "string")) (c04r_seen r) = false.
-Proof. exact Props.C04.C04_ts_double_alias_refuted. Qed.
-Print Assumptions Props.C04.C04_ts_double_alias_refuted.
+    known_C04 TypeScript (Proofs.C04_Back.c04_expect_of C04Alias Proofs.C04_Matrix.c04w_double false (lit "string")) = None /\
+    c04s_null_union (c04r_seen r) = true /\
+    good_C04 TypeScript (Proofs.C04_Back.c04_expect_of C04Alias Proofs.C04_Matrix.c04w_double false (lit "string")) (c04r_seen r) = true.
+Proof. exact Props.C04.C04_ts_double_alias_fixed. Qed.
+Print Assumptions Props.C04.C04_ts_double_alias_fixed.
 Goal forall (uc : unicode) (cfg : sw_config) f g s ty s' s2 ity s2' decl,
     type_override f Swift = None ->
     sw_field_texp cfg g f s = Ok (ty, s') -> sw_field_texp cfg g f s2 = Ok (ity, s2') ->
